@@ -327,6 +327,28 @@ def case(args):
         tag = "boundary" + ("p" if param == "+" else "m")
         extra = ["--no_model_construction"]
         models = False
+    elif kind == "ends":
+        # a novel isoform (the annotated one skips its middle exon) supported by three reads: two end exactly at (1001, 1990), the third
+        # one starts ds and ends de bases away (no tail of its own); tails = the first two carry a polyA tail / polyT head. Whether the
+        # third read counts for the model (3 reads are needed) must not depend on which side of the locus its deviation lies
+        from vlib import worlds as W
+        strand, tails, ds, de = param
+        w = W.base_world(1, 6000)
+        novel = [[1001, 1200], [1451, 1600], [1801, 1990]]
+        w["genes"].append({"id": "G1", "chr": "chr1", "strand": strand, "transcripts": [{"id": "T", "exons": [[1001, 1200], [1801, 1990]]}]})
+        syn.plant_for_transcripts(w)
+        W.add_sites_for_blocks(w, "chr1", novel, strand)
+        W.dedup_sites(w)
+        tail = ({"clip_right": "A" * 30} if strand == "+" else {"clip_left": "T" * 30}) if tails else {}
+        w["reads"] = [dict({"name": "e%d" % i, "chr": "chr1", "blocks": [list(b) for b in novel], "reverse": strand == "-"}, **tail) for i in (1, 2)]
+        third = [list(b) for b in novel]
+        third[0][0] += ds
+        third[-1][1] += de
+        w["reads"].append({"name": "e3", "chr": "chr1", "blocks": third, "reverse": strand == "-"})
+        w["reads"].append({"name": "edge", "chr": "chr1", "blocks": [[1, 300]], "reverse": False})
+        tag = "ends-%s%d_%d_%d" % ("p" if strand == "+" else "m", tails, ds, de)
+        extra = ["--model_construction_strategy", "all"]
+        models = True
     elif kind == "c13":
         # C13's annotations (overlapping / contained / shared / antisense exons, nested introns, intron-less loci) with all slot-subset
         # reads: exon and intron inclusion/exclusion tables of the mirrored input must be the mirrored tables
@@ -414,6 +436,13 @@ def run(ctx):
             jobs.append(("boundary", strand, tr, ctx.scratch))
         for v in (0, 1):
             jobs.append(("noisy", (v, strand), "reflect", ctx.scratch))
+    offs = (-30, 0, 30) if quick else (-60, -30, -10, 0, 10, 30, 60)
+    for strand in "+-":
+        for tails in (0, 1):
+            for ds in offs:
+                for de in offs:
+                    if (ds, de) != (0, 0):
+                        jobs.append(("ends", (strand, tails, ds, de), "reflect", ctx.scratch))
     from props import c13
     ids = sorted(c13.ISO_MENU)
     c13_variants = [0, 1, 2] + [(isos, sec) for n in (1, 2) for isos in itertools.combinations(ids, n) for sec in c13.SECOND]
